@@ -52,6 +52,10 @@ def _y_from_unit(name, units):
 def check_function(case):
     name = _names()[case["name_index"] % len(_names())]
     y = _y_from_unit(name, case["units"])
+    tiny = bool(case.get("tiny")) and name in ("log1p", "expm1")
+    if tiny:
+        # log1p / expm1 exist for arguments near zero, where log(1+x) and exp(x)-1 cancel: tiny targets, compared RELATIVELY
+        y = y * 1e-10
     if case["two_d"]:
         y = y.reshape(-1, 1)
     X = np.array(case["X"], dtype=np.float64).reshape(len(case["units"]), -1)
@@ -81,7 +85,7 @@ def check_function(case):
     require(y2.shape == y.shape, "roundtrip:shape", "%r vs %r" % (y2.shape, y.shape), facts)
     require(bool(np.all(np.isnan(y2) == np.isnan(y))), "roundtrip:nan-positions", "", facts)
     ok = ~np.isnan(y)
-    tol = 1e-12 * np.abs(y[ok]) if name == "log" else 1e-9 * (1 + np.abs(y[ok]))
+    tol = 1e-12 * np.abs(y[ok]) if name == "log" else (1e-9 * np.abs(y[ok]) if tiny else 1e-9 * (1 + np.abs(y[ok])))
     bad = np.abs(y2[ok] - y[ok]) > tol
     if bad.any():
         i = int(np.nonzero(bad)[0][0])
@@ -92,7 +96,7 @@ def check_function(case):
     Xn, yn = t.transform(X, None)
     require(yn is None and np.array_equal(np.asarray(Xn), np.asarray(X0)), "transform:none", "", facts)
     return Outcome([name, "2d" if case["two_d"] else "1d", "has-nan" if (~ok).any() else "no-nan",
-                    "known-name" if name in DOMAINS else "unknown-name"], True, key=dict(case, name=name))
+                    "known-name" if name in DOMAINS else "unknown-name", "tiny-targets" if tiny else "ordinary-targets"], True, key=dict(case, name=name))
 
 
 def _neg_sqrt(z):
@@ -162,7 +166,7 @@ def _function_cases(draw, tier="quick"):
     d = draw(st.integers(1, 2))
     return dict(name_index=draw(st.integers(0, 11)), units=units, two_d=draw(st.booleans()),
                 X=[[draw(st.integers(-40, 40)) / 4.0 for _ in range(d)] for _ in range(n)],
-                xkind=draw(st.sampled_from(["float", "float", "int", "frame"])), as_callables=draw(st.integers(0, 3)) == 0)
+                xkind=draw(st.sampled_from(["float", "float", "int", "frame"])), as_callables=draw(st.integers(0, 3)) == 0, tiny=draw(st.booleans()))
 
 
 # ------------------------------------------------------------------------- permutations
